@@ -101,16 +101,16 @@ pub struct LookUps;
 include!("attack_lookups_extracted.rs"); // impl LookUps { compute_bishop_attacks, compute_rook_attacks, compute_queen_attacks: verbatim }
 
 static mut MAGIC_SEL: [u8; 4] = [0; 4];
-const MAGIC_CHOICES: [u64; 4] = [0x0080_0010_2040_0080, 0x0000_0000_0000_0001, 0x8000_0000_0000_0001, 0x0101_0101_0101_0101];
+const MAGIC_CHOICES: [u64; 4] = [0x0000_0001_0000_0001, 0x0000_0000_0000_0001, 0x8000_0000_0000_0001, 0x0001_0000_0000_0000];
 
 fn expected(which: usize, sq: u8, occ: u64) -> u64 {
     let (mask, width, sel) = unsafe { (bb(data::MASK_CELLS[which][sq as usize]), data::WIDTH_CELLS[which][sq as usize], MAGIC_SEL[which]) };
     let x = occ & mask;
     let product = match sel {
-        0 => x.wrapping_mul(0x0080_0010_2040_0080),
+        0 => x.wrapping_add(x << 32),
         1 => x,
-        2 => x.wrapping_mul(0x8000_0000_0000_0001),
-        _ => x.wrapping_mul(0x0101_0101_0101_0101),
+        2 => x.wrapping_add(x << 63),
+        _ => x << 48,
     };
     let key = product >> (64 - width as u32);
     data::table(which, sq, key as usize)
